@@ -33,7 +33,7 @@ function check (job, resp, prefix) {
 module.exports = {
   id: 'C04',
   level: 'translation_validation',
-  rule: 'policy model required(inputAST, config) (written from the property text) marks every node that must be hooked; the erased+aligned output (see C02) must carry a hook annotation with the configured name on each of them. Workload: corpus files, catalogue placements x forms, random programs, under rotating configurations. distinct_nontrivial = distinct (input, config) with >= 1 required operation located.',
+  rule: 'policy model required(inputAST, config) (written from the property text) marks every node that must be hooked; the erased+aligned output (see C02) must carry a hook annotation with the configured name on each of them. Workload: corpus files, catalogue placements x forms, random programs, under rotating configurations. distinct_nontrivial = distinct (input, config) with >= 1 required operation located. Workload additions: corpus files with enabled operations spliced onto randomly chosen expression nodes (25 wrappers x every expression slot; only texts V8 still compiles), the syntax zoo with LF/CRLF/CR line endings, a CRLF slice of the corpus.',
   assumptions: [
     'the policy demands only what the statement states: literal-only sums, literal this-arguments of prototype calls, apply() without an argument list, spread this-arguments, bare calls, expression-bodied arrows outside any block and receivers outside the whitelist are not demanded',
     'files whose erased output does not align with the input (a C02 violation) are inconclusive for C04 and counted',
